@@ -846,6 +846,17 @@ def run_property(pid, suites, tier, seed, assumptions, extra_obligation_check=No
                     key = (su.version, su.race)
                     if key not in binaries:
                         continue
+                    if su.cross is not None:
+                        # suites that relate two module versions: the other version is run on the extra scenarios as well
+                        def run_on(version, lines2, _su=su):
+                            k2 = (version, False)
+                            if k2 not in binaries:
+                                b2, out2 = build_harness(version)
+                                if b2 is None:
+                                    raise RuntimeError("harness build failed (%s):\n%s" % (version, out2))
+                                binaries[k2] = b2
+                            return run_impl(binaries[k2], lines2, batch_timeout=_su.batch_timeout, tag=pid + _su.name + "sx")
+                        su.cross(extra_sc, run_on)
                     impl2 = run_impl(binaries[key], [sc.enc for sc in extra_sc], batch_timeout=su.batch_timeout, tag=pid + su.name + "s")
                     searched += len(extra_sc)
                     for sc, ir in zip(extra_sc, impl2):
